@@ -244,7 +244,8 @@ def gen():
     # ---- conn.rs
     rel = BUILD + "conn.rs"
     t = no_tests(F.strip_comments(F.src(rel)))
-    rb = F.fn_body(t, "read", rel)
+    # ConnBuffer::read split into private helpers (header, entries) is read as one body
+    rb = F.inline_calls(t, F.fn_body(t, "read", rel))
     m = re.search(r"let\s+(\w+)\s*=\s*reader\.read_line\(&mut\s+self\.line\)\?;\s*if\s+\1\s*==\s*0\s*\{\s*(todo!\(\)|return\s+[^;]*err\w*\(|return\s+Err)", rb)
     if not m:
         raise F.FactError("ConnBuffer::read: handling of an input without header not recognised")
